@@ -2,6 +2,7 @@ package rules
 
 import (
 	"fmt"
+	"strings"
 	"go/token"
 	"go/types"
 
@@ -365,20 +366,30 @@ func c02CanonicalShape(c *core.Ctx) {
 			name := fmt.Sprintf("%s/newExtensionNode#%d", fname(fn), i)
 			child := call.Call.Args[1]
 			// ---- (a)
-			okChild, why := false, ""
-			inner := core.Strip(child)
-			if nt := namedElem(inner.Type()); nt != nil && nt.Obj().Name() == "branchNode" {
-				okChild, why = true, "static type *branchNode"
-			}
-			if !okChild {
-				if _, f := core.FieldLoad(inner); f != nil && f.Name() == "child" {
-					okChild, why = true, "the existing child of an extension node (a branch, inductively)"
+			var isBranch func(child ssa.Value, conds []core.Cond, d int) (bool, string)
+			isBranch = func(child ssa.Value, conds []core.Cond, d int) (bool, string) {
+				inner := core.Strip(child)
+				if nt := namedElem(inner.Type()); nt != nil && nt.Obj().Name() == "branchNode" {
+					return true, "static type *branchNode"
 				}
-			}
-			if !okChild {
-				// default arm of a type switch that excluded *leafNode and *extensionNode
+				if _, f := core.FieldLoad(inner); f != nil && f.Name() == "child" {
+					return true, "the existing child of an extension node (a branch, inductively)"
+				}
+				// a value chosen on several paths: each incoming value is a branch under the conditions of its edge
+				if ph, isPhi := inner.(*ssa.Phi); isPhi && d < 3 {
+					whys := []string{}
+					for i, e := range ph.Edges {
+						ok, w := isBranch(e, core.CondsOnEdgeTo(ph.Block().Preds[i], ph.Block()), d+1)
+						if !ok {
+							return false, ""
+						}
+						whys = append(whys, w)
+					}
+					return true, "on every path: " + strings.Join(whys, " / ")
+				}
+				// default arm of a type switch (or if-chain of type assertions) that excluded *leafNode and *extensionNode
 				excl := map[string]bool{}
-				for _, cd := range core.CondsAt(in.Block()) {
+				for _, cd := range conds {
 					if ex, ok := cd.V.(*ssa.Extract); ok && ex.Index == 1 && !cd.Taken {
 						if ta, ok := ex.Tuple.(*ssa.TypeAssert); ok {
 							if nt := namedElem(ta.AssertedType); nt != nil {
@@ -391,10 +402,8 @@ func c02CanonicalShape(c *core.Ctx) {
 					}
 				}
 				if excl["leafNode"] && excl["extensionNode"] {
-					okChild, why = true, "default arm of a type switch that excluded *leafNode and *extensionNode"
+					return true, "path on which the value was found to be neither a *leafNode nor an *extensionNode"
 				}
-			}
-			if !okChild {
 				// result of a package function all of whose success exits return a *branchNode
 				if ex, ok := inner.(*ssa.Extract); ok && ex.Index == 0 {
 					if cl, ok := ex.Tuple.(*ssa.Call); ok {
@@ -410,12 +419,14 @@ func c02CanonicalShape(c *core.Ctx) {
 								}
 							}
 							if all && any {
-								okChild, why = true, "result of "+fname(g)+", which returns a *branchNode on every success exit"
+								return true, "result of " + fname(g) + ", which returns a *branchNode on every success exit"
 							}
 						}
 					}
 				}
+				return false, ""
 			}
+			okChild, why := isBranch(child, core.CondsAt(in.Block()), 0)
 			if !okChild {
 				if r, ok := childOK[fname(fn)]; ok {
 					okChild, why = true, "tabled: "+r
